@@ -70,7 +70,7 @@ def sh(cmd, cwd=None, env=None, timeout=3600):
 
 def tests():
     rc, out = sh(f"{PY} -m pytest -q -p no:cacheprovider {TESTS}", cwd=REPO)
-    tail = [l for l in out.strip().splitlines() if " passed" in l or " failed" in l][-1:]
+    tail = [l.split(" in ")[0] for l in out.strip().splitlines() if " passed" in l or " failed" in l][-1:]
     return rc, tail
 
 
